@@ -1080,3 +1080,108 @@ _new = [(NORM_SCALAR, "curves", "norm", None), (NORM_SEQ, "curves", "norm", None
 for _c, _m, _q, _v in _new:
     _c.tag = _c.name[_c.name.index("["):]
 ALL += _new
+
+
+# ======================================================================================
+# C08 at the level of control points: copy and the operators with a SCALAR operand, for curves with any number of control points
+# (that the curve with control points s + P_i is the curve s + C(u) is the partition of unity - arithmetic, decided per shape by engine S)
+# ======================================================================================
+def h_copy_any(eng, st, args, kw, node, exits):
+    v = args[0]
+    if isinstance(v, (Num, BoolV)):
+        return v                                             # copy of a number: an equal number (A2)
+    if isinstance(v, Obj) and v.cls == "AbsKnotVector":
+        return new_kvobj(st, "copied", v.fields["npts"].z, v.fields["degree"].z)      # a NEW knot vector object with the same content
+    if isinstance(v, Obj) and v.cls == "BaseCurve":
+        # copy(curve) by the contract proved as DEEPCOPY_CURVE: a new curve on a new knot-vector object with equal control points and weights
+        kv = new_kvobj(st, "copied", v.fields[KVF].fields["npts"].z, v.fields[KVF].fields["degree"].z)
+        f = {KVF: kv}
+        for k in (PF, WF_):
+            x = v.fields[k]
+            f[k] = Seq(x.arr, x.n, False) if isinstance(x, Seq) else NoneV()
+        return Obj("BaseCurve", f)
+    raise E.Unsupported("copy(%r)" % (v,))
+
+
+def h_isinstance_curve(eng, st, args, kw, node, exits):
+    v = args[0]
+    return BoolV(z3.BoolVal(isinstance(v, Obj) and v.cls == "BaseCurve"))
+
+
+def h_neg_curve(eng, st, args, kw, node, exits):
+    """-curve by the contract proved as NEG: a new curve with control points -P_i (ValueError without control points)."""
+    c = args[0]
+    if not isinstance(c.fields[PF], Seq):
+        eng.raise_exc(st, "ValueError", z3.BoolVal(True), node.lineno, exits)
+        raise E._DeadPath()
+    r = h_copy_any(eng, st, [c], kw, node, exits)
+    p = E.fresh_seq("negated")
+    i = fresh_int("i")
+    st.assume(p.n == c.fields[PF].n)
+    st.assume(z3.ForAll([i], z3.Implies(z3.And(i >= 0, i < p.n), z3.Select(p.arr, i) == -z3.Select(c.fields[PF].arr, i)), patterns=[z3.Select(p.arr, i)]))
+    r.fields[PF] = p
+    return r
+
+
+def h_add_curve_scalar(eng, st, args, kw, node, exits):
+    """curve + s (s a number) by the contract proved as ADD_SCALAR."""
+    c, s_ = args
+    if not isinstance(s_, Num):
+        raise E.Unsupported("curve + %r" % (s_,))
+    if not isinstance(c.fields[PF], Seq):
+        eng.raise_exc(st, "ValueError", z3.BoolVal(True), node.lineno, exits)
+        raise E._DeadPath()
+    r = h_copy_any(eng, st, [c], kw, node, exits)
+    p = E.fresh_seq("shifted")
+    i = fresh_int("i")
+    st.assume(p.n == c.fields[PF].n)
+    st.assume(z3.ForAll([i], z3.Implies(z3.And(i >= 0, i < p.n), z3.Select(p.arr, i) == s_.real() + z3.Select(c.fields[PF].arr, i)), patterns=[z3.Select(p.arr, i)]))
+    r.fields[PF] = p
+    return r
+
+
+def sp_eq_elems(se, a, b):
+    if isinstance(a, NoneV) or isinstance(b, NoneV):
+        return BoolV(z3.BoolVal(isinstance(a, NoneV) and isinstance(b, NoneV)))
+    i = fresh_int("i")
+    return BoolV(z3.And(a.n == b.n, z3.ForAll([i], z3.Implies(z3.And(i >= 0, i < a.n), z3.Select(a.arr, i) == z3.Select(b.arr, i)))))
+
+
+CSPEC["eq_elems"] = sp_eq_elems
+OP_CALLS = dict(CURVE_GETTERS)
+OP_CALLS.update(SETTER_CALLS)
+# the weights a copy receives are those of the operand, whose weight function has no zero: the zero test of the setter passes (A11)
+OP_CALLS["setattr:BaseCurve.weights"] = CallSpec(mk_set_weights(True))
+OP_CALLS.update({"getattr:BaseCurve.__class__": CallSpec(lambda eng, st, a, kw, node, exits: E.Const(("class", "BaseCurve"))),
+                 "rbinop:Add:BaseCurve": CallSpec(h_add_curve_scalar),
+                 "func:copy": CallSpec(h_copy_any), "func:isinstance": CallSpec(h_isinstance_curve), "call:self.__class__": CallSpec(h_new_curve),
+                 "func:KnotVector": CallSpec(h_KnotVector), "unary:USub:BaseCurve": CallSpec(h_neg_curve), "binop:Add:BaseCurve": CallSpec(h_add_curve_scalar),
+                 "method:BaseCurve.__add__": CallSpec(h_add_curve_scalar)})
+NEWCURVE = ["not same(result, self)", "not same(KV(result), KV(self))", "unchanged(self)", "npts(result) == npts(self)", "deg(result) == deg(self)", "INV(result)",
+            "eq_elems(W(result), W(self))"]
+
+
+def op_contract(name, qual, params, elem, raises=None, W=0):
+    return Contract(
+        "curves.BaseCurve.%s[W=%d]" % (name, W), setup=curve_state(1, W), params=dict({"self": "obj:BaseCurve"}, **params), spec=CSPEC, calls=OP_CALLS,
+        ensures=NEWCURVE + ["len(P(result)) == len(P(self))", "all(P(result)[i] == %s for i in range(len(P(self))))" % elem],
+        raises=raises or {}, exc_ensures=ATOMIC, canary="same(result, self)")
+
+
+_ops = []
+for _W in (0, 1):
+    _ops += [
+        (op_contract("__deepcopy__", None, {"memo": "any"}, "P(self)[i]", W=_W), "curves", "BaseCurve.__deepcopy__", None),
+        (op_contract("__neg__", None, {}, "0 - P(self)[i]", W=_W), "curves", "BaseCurve.__neg__", None),
+        (op_contract("__add__[scalar]", None, {"other": "real"}, "other + P(self)[i]", W=_W), "curves", "BaseCurve.__add__", None),
+        (op_contract("__radd__[scalar]", None, {"other": "real"}, "other + P(self)[i]", W=_W), "curves", "BaseCurve.__radd__", None),
+        (op_contract("__sub__[scalar]", None, {"other": "real"}, "P(self)[i] - other", W=_W), "curves", "BaseCurve.__sub__", None),
+        (op_contract("__rsub__[scalar]", None, {"other": "real"}, "other - P(self)[i]", W=_W), "curves", "BaseCurve.__rsub__", None),
+        (op_contract("__mul__[scalar]", None, {"other": "real"}, "P(self)[i] * other", W=_W), "curves", "BaseCurve.__mul__", None),
+        (op_contract("__rmul__[scalar]", None, {"other": "real"}, "other * P(self)[i]", W=_W), "curves", "BaseCurve.__rmul__", None),
+        (op_contract("__truediv__[scalar]", None, {"other": "real"}, "P(self)[i] / other", raises={"ZeroDivisionError": "other == 0"}, W=_W), "curves", "BaseCurve.__truediv__", None),
+    ]
+for _c, _m, _q, _v in _ops:
+    _c.tag = _c.name[_c.name.index("["):] if "[" in _c.name else ""
+    _c.name = _c.name
+ALL += _ops
